@@ -34,8 +34,15 @@ type Scenario struct {
 	Instances int                 `json:"instances,omitempty"` // 2: two threads run the directive concurrently
 	GOMAXP    int                 `json:"gomaxprocs,omitempty"`
 	Note      string              `json:"note,omitempty"`
-	prog      *pg.Program
-	reg       *probe.Program
+	// PreemptBound > 0: explore every schedule with fewer than PreemptBound
+	// preemptions (plain DFS) instead of all interleavings
+	PreemptBound int `json:"preempt_bound,omitempty"`
+	// MaxExecs > 0 caps the number of executions (the scenario is then reported as capped, never as exhaustive)
+	MaxExecs int64 `json:"max_execs,omitempty"`
+	// OverN: number of over-limit barrier participants when one decision key covers several invocations (slice elements)
+	OverN int `json:"over_n,omitempty"`
+	prog  *pg.Program
+	reg   *probe.Program
 }
 
 func (s *Scenario) String() string {
@@ -72,6 +79,12 @@ func (s *Scenario) String() string {
 	}
 	if s.Instances > 1 {
 		parts = append(parts, fmt.Sprintf("instances=%d", s.Instances))
+	}
+	if s.GOMAXP > 0 {
+		parts = append(parts, fmt.Sprintf("GOMAXPROCS=%d", s.GOMAXP))
+	}
+	if s.PreemptBound > 0 {
+		parts = append(parts, fmt.Sprintf("preemptions<%d", s.PreemptBound))
 	}
 	return strings.Join(parts, " ")
 }
@@ -151,6 +164,7 @@ type Run struct {
 	panicLog []panicEnt
 	cancel   func()
 	gate     *vs.Chan[struct{}]
+	overbar  *vs.WaitGroup
 	Misc     []Finding
 	Emits    []emitRec
 	ctx      context.Context
@@ -287,6 +301,11 @@ func (h hooks) CancelCtx() {
 
 func (h hooks) Gate() { h.r.gate.Recv() }
 
+func (h hooks) OverBar() {
+	h.r.overbar.Done()
+	h.r.overbar.Wait()
+}
+
 // Body returns the thread-0 body and the Run it fills.
 func (s *Scenario) Body() (func(), *Run) {
 	r := &Run{Sc: s}
@@ -307,6 +326,19 @@ func (s *Scenario) Body() (func(), *Run) {
 		}
 		r.ctx = base
 		r.gate = vs.NewChan[struct{}](0).Name("gate")
+		r.overbar = &vs.WaitGroup{}
+		nb := 0
+		for _, k := range s.Dec {
+			if k == probe.OverBar {
+				nb++
+			}
+		}
+		if s.OverN > 0 {
+			nb = s.OverN
+		}
+		if nb > 0 {
+			r.overbar.Add(nb)
+		}
 		if s.Cancel == "pre" {
 			r.cancel()
 			r.CancelVC = vs.Now()
@@ -476,10 +508,31 @@ func Check(r *Run, ex *vs.Exec) []Finding {
 		return out
 	}
 	hasGate := false
+	nOver := 0
 	for _, k := range s.Dec {
 		if k == probe.Gate {
 			hasGate = true
 		}
+		if k == probe.OverBar {
+			nOver++
+		}
+	}
+	if s.OverN > 0 {
+		nOver = s.OverN
+	}
+	if nOver > 0 {
+		// limit+1 functions that only return once all of them run at the same time
+		passed := 0
+		for _, c := range r.Calls {
+			if c.Kind == probe.OverBar && c.End != nil {
+				passed++
+			}
+		}
+		if passed > 0 {
+			add("C03", "%d user functions were executing at the same time (they only return once all %d of them run simultaneously); the concurrency limit is %d", nOver, nOver, nOver-1)
+		}
+		// otherwise they block forever by construction: nothing else to judge
+		return out
 	}
 	callerDone := len(ex.Threads) > 0 && ex.Threads[0].Done
 	if !callerDone {
@@ -771,6 +824,57 @@ func checkFlow(r *Run, inst int, o *probe.Out, byID map[string][]*call) []Findin
 			}
 			if ref.PredRuns[i] && len(ps) == 0 && o.Err == nil && !multi {
 				add("C11", "the flow returned nil but the predicate of task %d was never evaluated", i)
+			}
+		}
+	}
+	// C01: every invocation happens-after the end of the providers of its inputs
+	// and of its own predicate (vector clocks, not observed order: a missing
+	// dependency edge is a violation even in schedules where the value happened
+	// to be there already)
+	if !multi {
+		prov := f.Providers()
+		endOf := func(id string) *vs.Event {
+			if cs := byID[id]; len(cs) == 1 && cs[0].End != nil {
+				return cs[0].End
+			}
+			return nil
+		}
+		needs := func(what string, startVC vs.VC, ins []int, who string) {
+			for _, in := range ins {
+				pi, ok := prov[in]
+				if !ok || pi < 0 {
+					continue
+				}
+				if ref.State[pi] == pg.StDisabled {
+					continue
+				}
+				e := endOf(pg.TaskID(pid, pi))
+				if e == nil {
+					if len(byID[pg.TaskID(pid, pi)]) == 0 && !ref.UsedFB[pi] {
+						add("C01", "%s started but the provider of its input (task %d) was never invoked", who, pi)
+					}
+					continue
+				}
+				if !vs.HB(e.VC, startVC) {
+					add("C01", "%s started without happening-after the return of task %d, which provides its %s (a dependency edge is missing)", who, pi, what)
+				}
+			}
+		}
+		for i, t := range f.Tasks {
+			for _, c := range byID[pg.TaskID(pid, i)] {
+				needs("input", c.Ev.VC, t.In, fmt.Sprintf("task %d", i))
+				if t.Pred != nil {
+					if e := endOf(pg.PredID(pid, i)); e == nil {
+						add("C01", "task %d started although its predicate had not been evaluated", i)
+					} else if !vs.HB(e.VC, c.Ev.VC) {
+						add("C01", "task %d started without happening-after the return of its predicate (a dependency edge is missing)", i)
+					}
+				}
+			}
+			if t.Pred != nil {
+				for _, c := range byID[pg.PredID(pid, i)] {
+					needs("input", c.Ev.VC, t.Pred.In, fmt.Sprintf("predicate of task %d", i))
+				}
 			}
 		}
 	}
